@@ -417,10 +417,10 @@ func ruleGate(c *Ctx) {
 				accepting := false
 				last := retVal(r, res.Len()-1)
 				switch {
-				case isErrorType(res.At(res.Len()-1).Type()):
+				case isErrorType(res.At(res.Len() - 1).Type()):
 					accepting = !b.definitelyNonNilErr(last, r.Block(), 0)
 				default:
-					if bt, ok := res.At(res.Len()-1).Type().Underlying().(*types.Basic); ok && bt.Kind() == types.Bool {
+					if bt, ok := res.At(res.Len() - 1).Type().Underlying().(*types.Basic); ok && bt.Kind() == types.Bool {
 						if k, isK := boolConst(last); !isK || k {
 							accepting = true
 						}
@@ -510,11 +510,11 @@ func ruleGate(c *Ctx) {
 					continue
 				}
 				last := retVal(r, res.Len()-1)
-				if isErrorType(res.At(res.Len()-1).Type()) {
+				if isErrorType(res.At(res.Len() - 1).Type()) {
 					if b.definitelyNonNilErr(last, r.Block(), 0) {
 						continue
 					}
-				} else if bt, ok := res.At(res.Len()-1).Type().Underlying().(*types.Basic); ok && bt.Kind() == types.Bool {
+				} else if bt, ok := res.At(res.Len() - 1).Type().Underlying().(*types.Basic); ok && bt.Kind() == types.Bool {
 					if k, isK := boolConst(last); isK && !k {
 						continue
 					}
@@ -740,6 +740,9 @@ func (b *Body) invalidEdgeLeaves(fn *ssa.Function, gates []gateInfo) (bool, stri
 						return false, "returns nil error on invalid input at " + b.posOf(r)
 					}
 					for _, x := range res[:len(res)-1] {
+						if bv, isB := boolConst(x); isB && !bv {
+							continue // false is the zero answer of a verdict
+						}
 						if !isNilConst(x) {
 							return false, "returns a non-nil value with the error at " + b.posOf(r)
 						}
@@ -883,7 +886,6 @@ func describeCond(v ssa.Value) string {
 	}
 	return "_"
 }
-
 
 // initReach: for every codec function, the parameters whose value becomes the input of
 // (*decodeState).init — directly, or through codec helpers (decodeInto(data, v) { d.init(data) … }).
